@@ -31,7 +31,16 @@ def files():
         rd = fd.options.Extensions[resource_pb2.resource_definition].add()
         rd.type = typ
         rd.pattern.append(pat)
+    # a definition seen only through a reference two message levels below the request, and one whose type is one of the "common" resource types
+    for typ, pat in (("lab.example.com/Curator", "curators/{curator}"), ("cloudresourcemanager.googleapis.com/Project", "projects/{project}")):
+        rd = fd.options.Extensions[resource_pb2.resource_definition].add()
+        rd.type = typ
+        rd.pattern.append(pat)
+    G.add_message(fd, "Section", [G.F("curator", 1, G.T.TYPE_STRING, resource_ref="lab.example.com/Curator")])
+    G.add_message(fd, "Wing", [G.F("sections", 1, G.T.TYPE_MESSAGE, label=G.REPEATED, type_name=".acme.lab.v1.Section")])
     G.add_message(fd, "Req", [G.F("name", 1, G.T.TYPE_STRING), G.F("publisher_ref", 41, G.T.TYPE_STRING, resource_ref="lab.example.com/Publisher"),
+                              G.F("wing", 43, G.T.TYPE_MESSAGE, type_name=".acme.lab.v1.Wing"),
+                              G.F("project_ref", 44, G.T.TYPE_STRING, resource_ref="cloudresourcemanager.googleapis.com/Project"),
                               G.F("author_ref", 42, G.T.TYPE_STRING, resource_ref="lab.example.com/Author")] +
                   [G.F(f"r{i}", i + 2, G.T.TYPE_STRING, resource_ref=f"lab.example.com/{n}") for i, n in enumerate(PATTERNS)] +
                   [G.F("bucket_ref", 40, G.T.TYPE_STRING, resource_ref="store.example.com/Bucket")])
@@ -122,7 +131,9 @@ def scenarios():
         # file-level resource definitions: every referenced one gets its pair of helpers
         for nm, seg in (("publisher", {"publisher": "p1"}), ("author", {"author": "a1", "pen": "n2"}),
                         # ... and the two that are visible only through the result type of the long-running MakeReport
-                        ("report", {"report": "r1"}), ("finding", {"finding": "f1"})):
+                        ("report", {"report": "r1"}), ("finding", {"finding": "f1"}),
+                        # ... the one referenced two levels down, and the API's own declaration of a "common" resource type
+                        ("curator", {"curator": "c1"}), ("project", {"project": "p1"})):
             cases += 1
             if not (hasattr(C, f"{nm}_path") and hasattr(C, f"parse_{nm}_path") and hasattr(lab_v1.LabAsyncClient, f"parse_{nm}_path")):
                 failures.append({"resource": nm, "what": "no path helpers for a referenced file-level resource definition"})
